@@ -290,9 +290,6 @@ namespace RA
 structure Thread where
   loc : Local := {}
   view : View := View.bot
-  -- ghost: timestamps of the two slot words read in the current iteration of `snapshot`
-  tv : Nat := 0
-  tb : Nat := 0
 
 structure State where
   mem : Loc → List Msg     -- modification order of each location; timestamp = index
@@ -348,10 +345,7 @@ def step (chk : Nat → Nat → Bool) (s : State) : Label → Option State
       | some m =>
         if th.view l ≤ ts then
           let loc' := th.loc.feedLoad chk m.val
-          let th' : Thread :=
-            { loc := loc', view := loadView th.view l o ts m,
-              tv := if th.loc.pc = .sV then ts else th.tv,
-              tb := if th.loc.pc = .sB then ts else th.tb }
+          let th' : Thread := { loc := loc', view := loadView th.view l o ts m }
           some { s with thr := upd s.thr t th', log := upd s.log t (SC.logOf loc' (s.log t)) }
         else none
       | none => none
